@@ -44,7 +44,8 @@ ANext ==
     \/ \E v \in 0..(NV - 1) : \E r \in ReqsOf(v) : BPut(r, Toks(r), ReqErr(r, FALSE)) /\ tk' = tk + 1
     \/ \E v \in 0..(NV - 1) : \E r \in ReqsOf(v) : ReqErr(r, TRUE) = "NC_NOERR" /\ BGet(r, "NC_NOERR") /\ tk' = tk
     \/ \E v \in 1..(NV - 1) : \E r \in VarnReqs(v) : NoDup(r) /\ BPut(r, Toks(r), ReqErr(r, FALSE)) /\ tk' = tk + 1
-    \/ \E v \in 1..(NV - 1) : \E r \in VarnReqs(v) : ReqErr(r, TRUE) = "NC_NOERR" /\ BGet(r, "NC_NOERR") /\ tk' = tk
+    \* (sub-requests of a read list that overlap each other fall under the recorded overlapping-read finding of C02)
+    \/ \E v \in 1..(NV - 1) : \E r \in VarnReqs(v) : NoDup(r) /\ ReqErr(r, TRUE) = "NC_NOERR" /\ BGet(r, "NC_NOERR") /\ tk' = tk
     \* close and reopen: the logical content is what it was
     \/ /\ Len(hist) > 0 /\ hist[Len(hist)].c # "reopen"
        /\ UNCHANGED state /\ hist' = H([c |-> "reopen"]) /\ tk' = tk
